@@ -56,6 +56,17 @@ func (c02) Run(t *tape.Tape, tier Tier) *Result {
 		res.add(Violation{Prop: "C02", Oracle: "encode-at-origin", Culprit: typeOfLayer(want[0]), Expected: "no panic", Observed: p})
 		return res
 	}
+	// an errno may come from a peer of the same OS on another architecture
+	// (transport fault): the receiver keeps what the sender computed, so the
+	// well-known sentinels it matched must still match and no other may start to
+	foreign := false
+	if spec.HasKind(func(k gen.Kind) bool { return k == gen.LErrno }) && t.Bool(1, 4) {
+		if d2, n := world.ForeignArchErrno(m1); n > 0 {
+			m1, foreign = d2, true
+			sim.Stats.Faults["errno-foreign-arch"] += n
+			res.Desc.Faults = append(res.Desc.Faults, "errno-foreign-arch")
+		}
+	}
 	refs := refPool(t, g, b, spec, e0, 2+t.Draw(3))
 	refErrs := make([]error, len(refs))
 	for i, r := range refs {
@@ -171,6 +182,21 @@ func (c02) Run(t *tape.Tape, tier Tier) *Result {
 		where := fmt.Sprintf("flow %d hop %d at process %d (%s) via %s", d.Msg.Flow, d.Msg.Hop, d.Proc.ID, d.Proc.Prof.Name, routeString(d.Msg.Path))
 		if d.Panic != "" || d.RePanic != "" {
 			res.add(Violation{Prop: "C02", Oracle: "transfer", Culprit: typeOfLayer(want[0]), Expected: "no panic", Observed: d.Panic + d.RePanic, Where: where})
+			return
+		}
+		if foreign {
+			// only the sentinels of the standard library are compared: the
+			// errno leaf itself legitimately became an opaque errno
+			if d.Msg.Flow == 0 && d.Proc.Prof.IsFull() {
+				row := obs.IsRow(d.Err, refErrs)
+				sim.Logf("isrow(foreign) %s", row)
+				for i := range refs {
+					if refs[i].Native && row[i] != row0[i] && (row0[i] == 'F' || explain[i]) {
+						res.add(Violation{Prop: "C02", Oracle: "e-transferred-foreign-errno", Culprit: refCulprit(refs[i]) + ":" + string(row0[i]) + "->" + string(row[i]),
+							Expected: string(row0[i]), Observed: string(row[i]), Where: where + " ref=" + refs[i].Name})
+					}
+				}
+			}
 			return
 		}
 		holds[d.Proc.ID][d.Msg.Flow] = held{d.Err, d.Msg.Hop, routeString(d.Msg.Path)}
